@@ -89,10 +89,21 @@ def run_verus_unit(unit, defines=(), rlimit=None, seed=None, multiple_errors=20,
     res = {"unit": unit, "defines": list(defines), "status": "ok", "functions": {}, "errors": [], "items": [],
            "wall_s": 0.0, "solver_ms": 0, "cmd": ""}
     t0 = time.time()
-    cmd = [VX, os.path.join(VERIF, "contracts", u["tpl"]), REPO, gen, rep]
+    tpl = os.path.join(VERIF, "contracts", u["tpl"]) if "tpl" in u else None
+    env = dict(os.environ)
+    if "generator" in u:
+        tpl = os.path.join(d, unit + ".rs.tpl")
+        g = subprocess.run([sys.executable, os.path.join(VERIF, "tools", u["generator"]), REPO, tpl], capture_output=True, text=True)
+        if g.returncode != 0:
+            res["status"] = "extraction-error"
+            res["detail"] = "generator: " + g.stderr.strip()[-1500:]
+            return res
+        env["VX_PRELUDE_DIR"] = os.path.join(VERIF, "prelude")
+        env["VX_TPL_DIR"] = os.path.join(VERIF, "contracts")
+    cmd = [VX, tpl, REPO, gen, rep]
     for dfn in defines:
         cmd += ["-D", dfn]
-    r = subprocess.run(cmd, capture_output=True, text=True)
+    r = subprocess.run(cmd, capture_output=True, text=True, env=env)
     if r.returncode != 0:
         res["status"] = "extraction-error"
         res["detail"] = r.stderr.strip()
@@ -107,7 +118,7 @@ def run_verus_unit(unit, defines=(), rlimit=None, seed=None, multiple_errors=20,
         vcmd += ["--rlimit", str(rlimit)]
     if seed is not None:
         vcmd += ["--smt-option", f"smt.random_seed={seed}"]
-    res["cmd"] = " ".join(["vx", u["tpl"], "/repo"] + [f"-D {x}" for x in defines]) + " && " + " ".join(["verus", unit + ".rs"] + vcmd[2:])
+    res["cmd"] = " ".join(["vx", u.get("tpl", "<" + u.get("generator", "") + ">"), "/repo"] + [f"-D {x}" for x in defines]) + " && " + " ".join(["verus", unit + ".rs"] + vcmd[2:])
     try:
         v = subprocess.run(vcmd, capture_output=True, text=True, cwd=d, timeout=u.get("timeout", 900))
     except subprocess.TimeoutExpired:
